@@ -53,6 +53,40 @@ fn mds12_unit_vectors_contract() {
 // (a full row-product contract against the dot product with the circulant row was tried: one output row over a
 // fully symbolic state does not finish in 3600 s; see DESIGN.md 9.2)
 
+/// one non-zero coordinate carrying a fully symbolic canonical word: the result is that word times the
+/// corresponding column of the documented circulant matrix, reduced mod M (reference: 128-bit product and
+/// an independent reduction) - exercises every carry of the final fold
+fn unit64(j: usize) {
+    const ROW: [u64; 12] = [7, 23, 8, 26, 13, 10, 9, 7, 6, 22, 21, 8];
+    let c: u64 = kani::any();
+    kani::assume(c < M);
+    let mut state = [BaseElement::ZERO; 12];
+    state[j] = BaseElement::from_mont(c);
+    mds_multiply(&mut state);
+    let mut i = 0;
+    while i < 12 {
+        let p = (ROW[(j + 12 - i) % 12] as u128) * (c as u128);
+        let hi = p >> 64;
+        let lo = (p as u64) as u128;
+        let mut t = lo + (hi << 32) - hi;
+        let m = M as u128;
+        if t >= m {
+            t -= m;
+        }
+        if t >= m {
+            t -= m;
+        }
+        assert!(state[i].inner() as u128 == t);
+        i += 1;
+    }
+}
+
+#[kani::proof]
+#[kani::unwind(13)]
+fn mds12_unit_vector64_j3_contract() {
+    unit64(3);
+}
+
 #[kani::proof]
 #[kani::unwind(13)]
 fn mds12_canary_must_fail() {
